@@ -391,3 +391,9 @@ Definition run (cmd : command) (t_arg c_arg : option str) (mirror reduced : bool
 
 Definition exit_code (o : outcome) : N :=
   match o with OTable _ => 0%N | OError EClap => 2%N | OError _ => 1%N end.
+
+(* (check helper) parameters for which the complex is q-graded: only then are the Euler characteristics
+   of the rows of the `ckh` table invariants of the link (otherwise only the total one is) *)
+Definition s_HT : str := [72; 44; 84]%N.
+Definition ckh_graded (c : str) (p : params) : bool :=
+  (is_zero (p_h p) && is_zero (p_t p)) || str_eqb c s_H || str_eqb c s_0T || str_eqb c s_HT.
